@@ -8,7 +8,8 @@ request  {"op":"script","scheduler":"sge|pbs|slurm","mode":"array|single","batch
 reply    {"text":<script>,"python":<embedded program>,"run":[run_start,run_stop],"rewritten":bool,
           "tasks":[[t, batch id | null],..],"ids":[..],"amode":"all|partial","dynamic":bool,"single_ids":[..]}
          or {"err":"value|type|zerodiv|format"}
-request  {"op":"script_cli","num_batches":B,"done":[..]}  reply {"ids":[the batches `xyzpy-grow` grows]}
+request  {"op":"script_cli","num_batches":B,"done":[..],"prepared":bool}
+reply    {"ids":[the batches `xyzpy-grow` grows],"raised":bool}   (through the translated skeleton `Gen.cliSk`)
 -/
 open Lean
 
@@ -58,7 +59,9 @@ def rawOf (o env : Json) : Raw :=
       | .arr #[k, v] => ((k.getStr?.toOption.getD "").toList, pyValOf v)
       | _ => ([], .none)),
     home := (getStr env "home").toList,
-    condaDefault := ((env.getObjValAs? String "conda_default_env").toOption).map String.toList,
+    condaDefault := match (env.getObjValAs? String "conda_default_env").toOption with
+      | some e => .str e.toList
+      | none => .bool false,
     name := (getStr env "name").toList, parentDir := (getStr env "parent_dir").toList }
 
 def schedOf : String → Option Sched
@@ -72,8 +75,11 @@ def opScript (j : Json) : Json :=
     let explicit := (j.getObjValAs? (List Nat) "batch_ids").toOption
     let B := getNat j "num_batches"
     let done := natList j "done"
-    match resolve sched (rawOf (getObj j "opts") (getObj j "env")) with
-    | .error e => err e
+    let raw := rawOf (getObj j "opts") (getObj j "env")
+    match resolve sched raw with
+    | .error e => Json.mkObj [("err", Json.str (match e with | .valueError => "value" | .typeError => "type" | _ => "other")),
+        ("gen_err", toJson (match genText (getStr j "scheduler").toList (getStr j "mode").toList explicit B done raw with
+          | .error _ => true | .ok _ => false))]
     | .ok base =>
       let s := mkScript sched mode explicit B done base
       match s.text with
@@ -84,11 +90,17 @@ def opScript (j : Json) : Json :=
           ("run", toJson [s.runStart, s.runStop]), ("rewritten", toJson s.rewritten),
           ("tasks", Json.arr (s.tasks.map (fun t => Json.arr #[toJson t, toJson (taskBatch s t)])).toArray),
           ("ids", toJson s.ids), ("amode", Json.str (String.ofList s.amode.name)), ("dynamic", toJson s.dynamic),
-          ("single_ids", toJson (singleIds s (missing B done)))]
+          ("single_ids", toJson (singleIds s (missing B done))),
+          -- the same text computed with the translated body of gen_cluster_script (null: it raised / format failed)
+          ("text_gen", match genText (getStr j "scheduler").toList (getStr j "mode").toList explicit B done raw with
+            | .ok (some t) => Json.str t
+            | _ => Json.null)]
   | _, _ => err "value"
 
 def opCli (j : Json) : Json :=
-  Json.mkObj [("ids", toJson (missing (getNat j "num_batches") (natList j "done")))]
+  let prepared := ((j.getObjValAs? Bool "prepared").toOption).getD true
+  let r := cliRun prepared (getNat j "num_batches") (natList j "done")
+  Json.mkObj [("ids", toJson r.1), ("raised", toJson r.2)]
 
 def handleScript (op : String) (j : Json) : Option Json :=
   match op with
